@@ -96,7 +96,7 @@ def run_property(prop: str, tier: str):
             obligations.append(Obligation('lemma:%s/%s' % (lname, sub), hyps, goal, 'lemma', 'lemma:' + lname))
         functions.append({'function': 'lemma:' + lname, 'mode': 'deductive', 'obligations': len(obligations) - n0,
                           'file': 'contracts (pure-logic lemma over the contracts)'})
-    res = solve_all(obligations, timeout_s=timeout) if obligations else {}
+    res = solve_all(obligations, timeout_s=timeout, cross_check=(tier == 'thorough')) if obligations else {}
     failed, unknown, by_backend, solver_seconds = [], [], {}, 0.0
     canaries = {}
     baseline = load_baseline()
@@ -137,6 +137,18 @@ def run_property(prop: str, tier: str):
                                'backend': backend, 'model': model, 'note': o.note, 'source': src})
             else:
                 unknown.append({'name': o.name, 'function': o.fn, 'kind': o.kind})
+    from . import solve as _solve
+    cross = {'cvc5_confirms': 0, 'cvc5_unknown': 0, 'cvc5_disagrees': []}
+    if tier == 'thorough':
+        for o in obligations:
+            sec = _solve.CROSS.get(o.name, '')
+            if sec == 'unsat':
+                cross['cvc5_confirms'] += 1
+            elif sec == 'sat':
+                cross['cvc5_disagrees'].append(o.name)
+                errors.append('solver disagreement: z3 proved %s, cvc5 reports a counter-model' % o.name)
+            elif sec:
+                cross['cvc5_unknown'] += 1
     for fn_, vs in canaries.items():
         # a dead path is fine (e.g. an arm excluded by the precondition); a function ALL of whose normal exits are
         # unreachable has a contradictory precondition or invariant: the proof would be vacuous
@@ -144,7 +156,7 @@ def run_property(prop: str, tier: str):
             errors.append('vacuous: every normal exit of %s is unreachable under its contract (contradictory requires / invariant)' % fn_)
     return {'functions': functions, 'n_obligations': n_obl, 'n_discharged': n_dis, 'failed': failed, 'unknown': unknown,
             'unsupported': unsupported, 'errors': errors, 'by_backend': by_backend, 'solver_seconds': round(solver_seconds, 2),
-            'samples': samples, 'assumed_contracts': assumed, 'proved_now': {k: sorted(v) for k, v in proved_now.items()}, 'wall_s': round(time.time() - t0, 2)}
+            'samples': samples, 'assumed_contracts': assumed, 'cross_check': cross, 'proved_now': {k: sorted(v) for k, v in proved_now.items()}, 'wall_s': round(time.time() - t0, 2)}
 
 
 def evidence(prop, tier, seed, pr, fl, violations, known_lines, undecided, checker_errors, wall):
@@ -164,6 +176,7 @@ def evidence(prop, tier, seed, pr, fl, violations, known_lines, undecided, check
             'functions_under_contract': pr['functions'], 'by_backend': pr['by_backend'],
             'solver_seconds': pr['solver_seconds'],
             'undischarged': [f['name'] for f in pr['failed']] + [u['name'] for u in pr['unknown']],
+            'cvc5_cross_check_of_proved_obligations': pr.get('cross_check'),
             'unsupported_functions': pr['unsupported'],
         })
         assumptions += TRUSTED_BASE
